@@ -192,8 +192,9 @@ def gen_valid(rng, size):
     elif kind == 'runs':
         used = sorted(rng.sample(range(256), rng.randint(1, 5)))
         syms = []
-        for _ in range(rng.randint(1, max(2, size // 40))):
-            syms += [rng.randint(0, 1) for _ in range(rng.randint(1, 9))]
+        # (make_raw_block searches an origPtr by trial: keep the block small)
+        for _ in range(rng.randint(1, max(2, min(size, 1200) // 40))):
+            syms += [rng.randint(0, 1) for _ in range(rng.randint(1, 7))]
             if len(used) > 1:
                 syms.append(rng.randint(2, len(used)))
         alpha = len(used) + 2
